@@ -78,8 +78,23 @@ def rule_terminators(ck: Check, repo: Repo, folder: Folder, styles: list[dict]) 
             r.violation(f"{EX}._END_PATTERN", f"special ending {e!r} is not strippable",
                         "XML attribute / reST directive endings must not become part of the value",
                         repo.loc(repo.module_assign(EX, "_END_PATTERN")))
-    # every multi-line style that can create comments puts its end on a line of its own or after the text:
-    # a value can also be followed by `INDENT_BEFORE_END + end`
+    # stacked terminators: the pattern is a SEQUENCE (?:A)*(?:B)*...$, so which stacks are stripped depends on the order
+    # of the groups.  Reference order = lexicographic order of the escaped fragments (what sorted() over the set gives);
+    # every stack the reference order strips must still be stripped (language inclusion; a superset is fine)
+    groups = re.findall(r"\(\?:(?:[^()\\]|\\.)*\)\*", endp)
+    if "".join(groups) + "$" == endp and len(groups) >= 10:
+        ref = "".join(sorted(groups)) + "$"
+        alpha2 = Alphabet([(endp, 0), (ref, 0)], extra="".join(ends) + "ab ", exclude="\n\r")
+        from ..relang import in_a_not_b
+        w = in_a_not_b(Lang.from_regex(ref, 0, alpha2, "full"), Lang.from_regex(endp, 0, alpha2, "full"))
+        r.instance("stack-order", {"groups": len(groups), "reference_order": "sorted", "lost_stack": w})
+        if w is not None:
+            r.violation(f"{EX}._END_PATTERN", f"the stacked terminators {w!r} are no longer stripped",
+                        f"the groups of the end pattern are tried in sequence; in the order {[g[3:-2] for g in groups][:6]}… the stack"
+                        f" {w!r} (e.g. a JSX comment `{{/* … */}}`) stays attached to the value, which then does not parse and the file"
+                        f" contributes nothing", repo.loc(repo.module_assign(EX, "_END_PATTERN")))
+    else:
+        raise AnalysisError("_END_PATTERN is no longer a plain sequence of (?:X)* groups")
     ck.extra["end_pattern"] = endp
 
 
